@@ -277,13 +277,15 @@ def k3_wakeup(res, tier):
 
 @obligation('C07.K3.resumed_fiber_leaves_lists', 'C07', programs=('vm',), also=('C16',))
 def k3_leaves_lists(res, tier):
-    """Vm::queue_blocked_fiber from MIR for a parked fiber that used 0..2 channels whose send / receive waiter lists (0..2 entries
-    each) hold the fiber's waiter at arbitrary positions (it was resumed through a parent link or another channel): afterwards no
-    list of a channel the fiber used holds its waiter, the other entries are kept in order — so no later channel operation resumes
-    the fiber for a reason it no longer waits for (a synchronous sender would proceed before its value was taken)"""
+    """the one wake-up route that does not take the resumed fiber's waiter out of a list: the parent link.  Fiber::complete from MIR
+    for a child whose parent sleeps on a channel (Pending, its waiter at arbitrary positions of the send / receive lists, 0..2 entries
+    each, of the 0..2 channels it used; views may share a queue): when complete hands the parent's waiter to the scheduler, no list of
+    a channel the parent used holds that waiter any more and the other entries are kept in order.  Every other route pops the entry
+    it returns (find_runnable_waiter, C07.K1), so a fiber that is not parked is in no waiter list — no later channel operation
+    resumes it for a reason it no longer waits for (a synchronous sender would proceed before its value was taken)"""
     W = _World()
     e, P = W.e, W.P
-    f = P.lookup('vm::basic::<impl vm::Vm>::queue_blocked_fiber') or P.lookup('vm::Vm::queue_blocked_fiber')
+    f = P.lookup('fiber::Fiber::complete')
     src = P.items.files['laythe_vm/src/vm/ops.rs']
     for op, call in (('op_send', '.send('), ('op_receive', '.receive(')):
         mm = re.search(r'fn ' + op + r'\b.*?\n  \}\}', src, re.S)
@@ -302,7 +304,7 @@ def k3_leaves_lists(res, tier):
     e.max_paths = 40000
     e.timeout_s = 900
     res.bounds = {'channels used by the resumed fiber': '0..2 (two views may share one queue)', 'entries per waiter list': f'0..{nlist}, each the fiber\'s own waiter or another one',
-                  'fiber': 'Blocked or Pending, not in the run queue'}
+                  'parent': 'Pending (asleep on a channel) or Blocked (not resumed through the parent link unless awaited)', 'completing child': 'used no channel, not awaited'}
     res.assumptions = ['every channel whose lists can hold the waiter is in the fiber\'s channel list (checked on the source: op_send / op_receive call add_used_channel before the channel operation)']
 
     def chan_deref(e_, a, c):
@@ -362,18 +364,27 @@ def k3_leaves_lists(res, tier):
             d = PyDeque([tgt_w if kind == 'mine' else w for kind, w in items])
             queues[k][1].f[cqi[side]] = Cell(d)
             deques.append((k, side, d, [w for kind, w in items if kind == 'other']))
-        q = PyDeque([])
-        vm = W.vm(e, cur, q)
-        e.call(f, [Ref(Cell(vm)), tgt_w])
+        # the completing child: running, its parent is the parked fiber
+        child_s = cur_s
+        oty = W.fib_sd.fields[W.ix['parent']][1]
+        child_s.f[W.ix['parent']] = Cell(e.mk_option(e, norm_ty(oty), tgt))
+        if 'awaited' in W.ix:
+            child_s.f[W.ix['awaited']] = Cell(False)
+        r = e.call(f, [Ref(e.memo[('gcdata', cur.id.sexpr(), norm_ty('fiber::Fiber'))])])
+        handed = False
+        if isinstance(r, EnumV) and ((r.tag == 1) if isinstance(r.tag, int) else e.fork_bool(r.tag == 1)):
+            w = r.field(e, 'Some', 0, None).get(e)
+            handed = isinstance(w, AbsGc) and e.is_valid(w.id == tgt_w.id)
+        e.check(handed == (not blocked), 'complete: a sleeping parent is handed to the scheduler, a blocked one is left to the operation it waits for')
         left = [(k, side) for k, side, d, _ in deques if any(not e.is_valid(x.id != tgt_w.id) for x in d.items)]
-        e.check(not left, 'queue_blocked_fiber: the resumed fiber\'s waiter is in no waiter list of a channel it used',
-                {'still listed in': [f'channel{k}.{side}' for k, side in left]})
-        kept = all(len(d.items) - sum(1 for x in d.items if not e.is_valid(x.id != tgt_w.id)) == len(others)
+        if handed:
+            e.check(not left, 'complete: a parent resumed through the parent link is in no waiter list of a channel it used',
+                    {'still listed in': [f'channel{k}.{side}' for k, side in left]})
+        kept = all(len([x for x in d.items if e.is_valid(x.id != tgt_w.id)]) == len(others)
                    and all(e.is_valid(x.id == y.id) for x, y in zip([x for x in d.items if e.is_valid(x.id != tgt_w.id)], others))
                    for k, side, d, others in deques)
-        e.check(kept, 'queue_blocked_fiber: the waiters of other fibers stay in their lists, in order')
-        e.check(len(q.items) == 1 and e.is_valid(q.items[0].id == tgt.id), 'queue_blocked_fiber: the parked fiber is queued once')
-        return {'fn': 'queue_blocked_fiber', 'channels': nchan, 'lists': [(k, side, len(d.items)) for k, side, d, _ in deques]}
+        e.check(kept, 'complete: the waiters of other fibers stay in their lists, in order')
+        return {'fn': 'complete', 'parent resumed': handed, 'channels': nchan, 'lists': [(k, side, len(d.items)) for k, side, d, _ in deques]}
     results = e.explore(path)
     seen = set()
     for r in results:
